@@ -120,6 +120,13 @@ def exec_step(world: W.World, step: dict, ctx: seam.Ctx, fault=None, fp=False, e
     if ctx.trace_ws:
         out.ws = ctx.ws_ordinals
         out.wsk = ctx.ws_events
+    if isinstance(out.exc, RecursionError):
+        # how many lines run before the interpreter gives up depends on the depth of the caller's stack and on what
+        # else the interpreter happens to have on it; neither the count nor positions inside such a step are part of
+        # a repeatable history, so nothing is aimed into it
+        out.lines = 0
+        if ctx.trace_ws:
+            out.ws, out.wsk = [], []
     env1 = env_state()
     if env1 != env0:
         out.env_changed = [a for a, b in zip(("np.geterr", "np.get_printoptions", "sys.getrecursionlimit",
